@@ -354,6 +354,27 @@ let qr_pmap = ref true and qr_eq = ref true and qr_copy = ref true and qr_stream
 let current_quirks () : quirks =
   { q_pmap_nilmap = !qr_pmap; q_eq_asint = !qr_eq; q_copy_asint = !qr_copy; q_stream_oneshot = !qr_stream }
 
+
+(* ---- Build, Reset, build again with the same builder (records "c01r") *)
+let rec cut_trace = function [] -> [] | SOk :: r -> SOk :: cut_trace r | x :: _ -> [x]
+
+(* run a script on the model from a fresh builder state: trace letters and the built node *)
+let model_build (q : quirks) (proto : string) (ops : aop list) : string * node option * bool =
+  let (tr, fin) = run_tol q (init (proto_of proto)) ops in
+  let tr = cut_trace tr in
+  let all_ok = List.for_all (fun x -> x = SOk) tr && List.length tr = List.length ops in
+  let trs = String.concat "" (List.map letter_of_sres tr) in
+  if not all_ok then (trs, None, false)
+  else (trs, (match fin with Some s -> build s | None -> None), true)
+
+let split_hash (s : string) : string list = String.split_on_char '#' s
+
+(* alternatives are resolved piece by piece, so that a piece that changed shape does not disturb the others *)
+let resolve_pieces (s : string) (impl : string) : string =
+  let sp = split_hash s and ip = split_hash impl in
+  if List.length sp <> List.length ip then resolve s impl
+  else String.concat "#" (List.map2 resolve sp ip)
+
 let () =
   iter_lines (fun line ->
     match split_tab line with
@@ -363,6 +384,56 @@ let () =
        | "pmap_nilmap" -> qr_pmap := v | "eq_asint" -> qr_eq := v | "copy_asint" -> qr_copy := v
        | "stream_oneshot" -> qr_stream := v | _ -> ());
       print_string id; print_char '\t'; print_string obs; print_char '\t'; print_endline "ok"
+    | id :: "c01r" :: proto :: v1text :: script1 :: v2text :: script2 :: obs :: _ ->
+      let v1 = dm_of_string v1text and v2 = dm_of_string v2text in
+      let ops1 = List.map fst (parse_script script1) and ops2 = List.map fst (parse_script script2) in
+      let q = current_quirks () in
+      (* ---- model: Reset gives a fresh builder state; the first node is a value and cannot change
+         (aliasing between the builder and built nodes is the subject of C11's heap model) *)
+      let core n = "t=" ^ mdump n ^ "|r=" ^ render_reads model_api n in
+      let seg (trs, n, live) = match n with
+        | _ when not live -> ("tr=" ^ trs ^ "|b=-|t=-|r=-", None)
+        | None -> ("tr=" ^ trs ^ "|b=P|t=-|r=-", None)
+        | Some n -> ("tr=" ^ trs ^ "|b=ok|" ^ core n, Some n) in
+      let (s1, n1) = seg (model_build q proto ops1) in
+      let model_obs = match n1 with
+        | None -> s1
+        | Some n1 ->
+          let (s2, n2) = seg (model_build q proto ops2) in
+          (match n2 with
+           | None -> s1 ^ "#rs=.#" ^ s2
+           | Some n2 ->
+             s1 ^ "#rs=.#" ^ s2 ^ "#again:" ^ core n1 ^ "#eq=" ^
+             (match deep_equal q n1 n2 with ROk true -> "T" | ROk false -> "F" | _ -> "P")) in
+      let model_obs = resolve_pieces model_obs obs in
+      (* ---- oracle, from the two values alone *)
+      let score v = "t=" ^ sdump v ^ "|r=" ^ render_reads spec_api v in
+      let sseg ops v = "tr=" ^ String.make (List.length ops) '.' ^ "|b=ok|" ^ score v in
+      let spec_obs = sseg ops1 v1 ^ "#rs=.#" ^ sseg ops2 v2 ^ "#again:" ^ score v1 ^ "#eq=" ^
+                     (if dm_goeq v1 v2 then "T" else "F") in
+      let spec_obs = resolve_pieces spec_obs obs in
+      let verdict =
+        if spec_obs = obs then "ok" else begin
+          let ss = split_hash spec_obs and is = split_hash obs in
+          let cls = ref "" in
+          let set c = if !cls = "" then cls := c in
+          List.iteri (fun i w ->
+              match List.nth_opt is i with
+              | None -> set (match i with 1 -> "reset" | 2 -> "second_build" | _ -> "truncated")
+              | Some o when o = w -> ()
+              | Some o ->
+                (match i with
+                 | 0 -> set "readback"
+                 | 1 -> set "reset_fails"
+                 | 2 -> set "second_build_readback"
+                 | 3 -> set "first_node_changed_after_reset"
+                 | _ ->
+                   let big = has_uint v1 || has_uint v2 in
+                   if o = "eq=P" && big then set "deepequal_uint_panic"
+                   else set "deepequal_after_reset")) ss;
+          "fail:" ^ (if !cls = "" then "observation" else !cls)
+        end in
+      print_string id; print_char '\t'; print_string model_obs; print_char '\t'; print_endline verdict
     | id :: "c01" :: proto :: vtext :: script :: mutants :: obs :: _ ->
       let v = dm_of_string vtext in
       let ops = List.map fst (parse_script script) in
